@@ -11,7 +11,7 @@ PID = "C06"
 MC_CFG = "INIT MCInit\nNEXT MCNext\nINVARIANT MCInv\nCHECK_DEADLOCK FALSE\n"
 MATRIX_CFG = "INIT MatrixInit\nNEXT MatrixNext\nINVARIANT MatrixEmit\nCHECK_DEADLOCK FALSE\n"
 SEQ_CFG = "INIT SeqInit\nNEXT SeqNext\nINVARIANT SeqEmit\nCHECK_DEADLOCK FALSE\n"
-SOFT = ["SoftNoForgedDelivered", "SoftGenuineAccepted", "SoftBitIdentical", "SoftNothingElse"]
+SOFT = ["SoftNoForgedDelivered", "SoftGenuineAccepted", "SoftBitIdentical", "SoftNothingElse", "SoftDiscardedSilently"]
 
 
 def trace_cfg(diag, stale=True):
@@ -104,6 +104,8 @@ def _validate(rep, part, trace, diag):
     rep.add_traces(part, r["runs"], st["nontrivial"], r["events"])
     rep.cov["parts"][part].update({k: st[k] for k in ("presentations", "tampered_presentations", "genuine_delivered",
                                                      "conn_error_on_unauthenticated", "premature_key_updates", "panics")})
+    if part == "matrix":
+        rep.cov["parts"][part]["premature_key_updates"] = None   # only meaningful where every record is one presentation
     rep.cov["parts"][part]["tampered_by_region_presented_delivered"] = st["regions"]
     with open(trace) as f:
         lines = [l for _, l in zip(range(5), f)]
@@ -136,7 +138,7 @@ def run(tier, rep):
     # 2. case matrix
     consts = dict(GEN_DEFAULTS)
     if quick:
-        consts.update({"Toks": "{0, 1, 63, 64}", "Dcids": "{0, 1, 8, 20}", "Scids": "{0, 1, 8, 20}", "Plens": "{1, 2, 3, 4}",
+        consts.update({"Toks": "{0, 1, 63, 64}", "Dcids": "{0, 1, 8, 20}", "Scids": "{0, 8, 20}", "Plens": "{1, 2, 3, 4}",
                        "Pays": '{"min", "small", "medium", "full"}', "Gens": "{0, 1, 2}"})
         bits, samples = 2400, 160
     else:
